@@ -2,6 +2,9 @@
 # Regenerates MANIFEST.json from the table below (kept in one place so it stays valid).
 import json, subprocess
 claimed = {
+ "C06": ("choice-tree DFS over all expression trees up to 3 operators x literal set x 3 renderings x operand positions; big-integer reference evaluator", "7/C06"),
+ "C16": ("choice-tree DFS over program variants x all ordered pairs of 7 ORG settings; differential relocation oracle with model-known absolute fields", "7/C16"),
+ "C17": ("choice-tree DFS over directive choices {none,16,32}^3 x instruction groups x interleaved statements, and the directive at every prelude position; differential oracle against single-mode segments, exact last_bits_wins defect model", "7/C17"),
  "C03": ("choice-tree DFS over statement kinds (and ordered pairs) in front of a label x uses of the label/$ x ORG x BITS; sentinel-located real offsets vs embedded values and pass-1 table; per-kind defect model", "7/C03"),
  "C04": ("choice-tree DFS over 32 branch mnemonics x every gap 0..140 (+-32768 boundary) x direction x target kind x ORG x BITS; reference decoder: cc, next+disp == real target, size", "7/C04"),
  "C02": ("choice-tree DFS over every 16/32-bit addressing shape x displacement x carrier x width x BITS; reference decoder, effective address compared as a linear form", "7/C02"),
@@ -10,6 +13,9 @@ claimed = {
  "C05": ("choice-tree DFS over DB/DW/DD operand lists, RESB, ALIGNB x residue x ORG, non-emitting statements; directive reference model", "7/C05"),
 }
 texts = {
+ "C06": "Every expression tree with up to 2 (thorough: 3) binary operators over a boundary literal set, in three renderings, is assembled through DD and compared with an arbitrary-precision reference evaluator; a reduced set is placed in every other operand position (DB/DW, immediates, displacements around a register term, RESB, EQU bodies and chains, ORG). Zero divisors must be diagnosed. Exhaustive within the stated bounds.",
+ "C16": "For every program variant and every ordered pair of origins the second output must equal the first with the origin difference added at exactly the absolute fields (positions known from sentinels) and be identical elsewhere, including branch displacements and length; no ORG must equal ORG 0.",
+ "C17": "All 27 directive assignments over three segments x 10 mode-sensitive instruction groups x 7 interleaved neutral statements: the output must equal the concatenation of the segments assembled alone under the mode in force; plus the directive at each of 6 prelude positions.",
  "C03": "Every statement kind of a 121-kind catalogue (one per size class) - and in the thorough tier every ordered pair - is placed in front of a label whose real address is located by a sentinel; seven kinds of use of the label and of $ are read back from the output and compared; pass-1 size vs emitted size is compared per kind. Label drift in longer programs is excused only when it equals the sum of the listed per-kind est/emit differences (defect model). Exhaustive within the catalogue and depth.",
  "C04": "Each branch is decoded by the reference decoder at its sentinel-located position: the condition code must be the named one, address-of-next + displacement must equal the real target (label located by sentinel, or the literal number), no stray prefix, emitted length == pass-1 size. All 32 mnemonics x all gaps 0..140 forward and backward x label/numeric x 2 origins x 2 modes (thorough), plus +-32768 boundary gaps and far pointers.",
  "C02": "All 16-bit shapes and all 32-bit base x index x scale shapes (valid and invalid) x 14 boundary displacements x carrier instructions x widths x both modes are assembled by the real pipeline; the emitted prefix/ModRM/SIB/displacement is decoded by the reference decoder and the denoted address is compared, as a linear form modulo the address size, with the address written. Exhaustive within the stated alphabets.",
@@ -18,6 +24,9 @@ texts = {
  "C05": "Every operand list up to the stated length over a 27-item boundary alphabet (and rotations up to length 64), every RESB/ALIGNB/residue/ORG combination and every non-emitting statement is assembled by the real pipeline and compared byte for byte with a directive model; the location counter is compared with the emitted length. Exhaustive within the stated bounds.",
 }
 notes = {
+ "C06": "Trusted: the reference evaluator (math/big), DD/DB/DW emission (C05), x86ref for immediates/displacements. Values leaving int64 are not judged.",
+ "C16": "Trusted: sentinel framing, the layout of the test programs (absolute fields directly after sentinels; MOV r16,imm16 = opcode+iw).",
+ "C17": "Differential: single-mode assembly is the reference (its correctness is C01's). Known finding C17-F01 (emission uses the last BITS of the file) is recognised only by exact equality with its defect model.",
  "C03": "Trusted: sentinel framing (DB path verified by C05), x86ref decoder for instruction uses, the worker's view of pass-1 SymTable/LOC. Known findings: [lab] in memory operands encodes 0; per-kind size-estimate disagreements (branches, PUSH/POP FS/GS, INT 3, MOV CRn, PUSH imm16, IMUL imm, 32-bit addressing).",
  "C04": "Trusted: x86ref decoder, sentinel framing. The branch machinery of the pinned tree is wrong in most cells outside short label-target jumps in 16-bit mode; those cells are listed as known findings by (mode, class, direction, target kind, gap) with exact deviations.",
  "C02": "Trusted: x86ref decoder and MemSpec linear-form comparison. Displacements that do not fit the address width are outside the model. Known findings: four root causes in calculateModRM (index-only, EBP base without displacement, 16-bit pairs in 32-bit mode, zero SIB byte).",
